@@ -196,7 +196,8 @@ def judge(scn, ctl, outcome, halton_pos):
     ran = [(b[0], b[1]) for b in batches]
     pol = [(i, e[1]) for i, e in enumerate(ev) if e[0] == "policy"]
     lrn = [(i, e[1], e[2]) for i, e in enumerate(ev) if e[0] == "learn"]
-    sig = (tuple(p for _, p in ran), tuple(a for _, a in pol), tuple((a, round(r, 12)) for _, a, r in lrn))
+    sig = (tuple(p for _, p in ran), tuple(a for _, a in pol),
+           tuple((a, "nan" if r != r else round(r, 12)) for _, a, r in lrn))   # NaN must compare equal to itself
     errs = [(p.name, p.error) for p in ctl.parts if p.error is not None]
     if outcome != "ok":
         return ("C10/deadlock", f"no participant can proceed: {outcome}"), sig
@@ -316,7 +317,8 @@ def _explore(ctx: Ctx, scn, depth=6):
 
 
 LOSS_SCRIPTS = [[5.0, 4.0, 4.0, 6.0, 1.0, 0.5, 0.5, 3.0, 0.25], [1.0, 2.0, 3.0, 0.5, 0.5, 4.0, 0.1, 9.0, 0.1],
-                [2.0, 0.0, 1.0, 0.0, 3.0, 0.0]]   # the last one reaches a perfect fit (best loss exactly 0)
+                [2.0, 0.0, 1.0, 0.0, 3.0, 0.0],   # reaches a perfect fit (best loss exactly 0)
+                [3.0, float("nan"), 2.0, float("inf"), 1.0, float("nan")]]   # batches whose loss is not finite
 
 
 def scenario(sessions, agent="scripted", losses=0, script=(0, 1, 2, 1, 0, 2, 2, 0), seed=1, eps=0.3, fault=None):
@@ -329,7 +331,8 @@ def sampled_cases(draw):
     sessions = draw(st.lists(st.integers(1, 3), min_size=1, max_size=3))
     agent = draw(st.sampled_from(["scripted", "eps"]))
     scn = {"sessions": sessions, "agent": agent,
-           "losses": draw(st.lists(st.sampled_from([5.0, 4.0, 1.0, 0.5, 2.0, 0.25, 8.0, 0.0]), min_size=3, max_size=9)),
+           "losses": draw(st.lists(st.sampled_from([5.0, 4.0, 1.0, 0.5, 2.0, 0.25, 8.0, 0.0, float("nan"), float("inf")]),
+                                   min_size=3, max_size=9)),
            "script": draw(st.lists(st.integers(0, 3), min_size=1, max_size=6)), "samplers": draw(st.integers(1, 3)),
            "alpha": draw(st.sampled_from([-1, 0.5])), "eps": draw(st.sampled_from([0.0, 0.3, 1.0])),
            "seed": draw(st.integers(0, 50))}
@@ -362,7 +365,7 @@ def run(ctx: Ctx):
                                                                          [3, 1], [1, 3]]
     ok = True
     for sessions in small:
-        for agent, losses in (("scripted", 0), ("eps", 1), ("scripted", 2)) if len(sessions) <= 2 and sum(sessions) <= 3 else (("scripted", 0),):
+        for agent, losses in (("scripted", 0), ("eps", 1), ("scripted", 2), ("scripted", 3)) if len(sessions) <= 2 and sum(sessions) <= 3 else (("scripted", 0),):
             if not explore(ctx, scenario(sessions, agent=agent, losses=losses)):
                 ok = False
                 break
